@@ -284,7 +284,7 @@ inductive WPh where
   deriving DecidableEq, Repr
 
 /-- operators allowed outside a bit-map definition -/
-def okIdleOp (id : Nat) : Bool := id != 236000 && id != 237000 && !hidesMembers id
+def okIdleOp (id : Nat) : Bool := id != 236000 && id != 237000 && id != 31031 && !hidesMembers id
 
 mutual
 /-- a member outside a bit-map definition (bit-map operators themselves are looked at by `wfL`) -/
@@ -295,7 +295,7 @@ def wfD : Desc → Bool
   | .fixedRep id ms => id != 31031 && wfL .idle ms
   | .delayedRep id f ms =>
     id != 31031 && (match f with | .elem fe => fe.id != 31031 | _ => false) && wfL .idle ms
-  | .op id => okIdleOp id
+  | .op id => okIdleOp id && !isBitmapOpId id
   | .seq id ms => id != 31031 && wfL .idle ms
 /-- a member list, read from the phase `ph`; it must end outside a bit-map definition -/
 def wfL : WPh → List Desc → Bool
